@@ -294,7 +294,7 @@ def check_positions(ctx, fn, construct, self_call_names=("_call_binary",)):
     return sites
 
 
-@rule("C16.positions", props=["C16"], min_instances=8, mutants=[
+@rule("C16.positions", props=["C16", "C02", "C03"], min_instances=8, mutants=[
     ("swap recursion args in the list arm", ("operator_dict", "type(mv1)(self._call_binary(mv, mv2) for mv in mv1)",
                                              "type(mv1)(self._call_binary(mv2, mv) for mv in mv1)")),
     ("swap by-name call values", ("operator_dict", "self.algebra.numspace[func.__name__](mv1.values(), mv2.values())",
@@ -482,7 +482,8 @@ def itermv(ctx):
             ctx.ok(c, fn)
 
 
-@rule("C16.operand-kinds", props=["C16"], min_instances=9, mutants=[
+@rule("C16.operand-kinds", props=["C16"], min_instances=12, mutants=[
+    ("registered functions call a callable argument only once", ("operator_dict", "            # Call until no longer callable.\n            while isinstance(mv, Callable) and not isinstance(mv, MultiVector):\n                mv = mv()\n            mvs[i] = mv", "            if isinstance(mv, Callable) and not isinstance(mv, MultiVector):\n                mv = mv()\n            mvs[i] = mv")),
     ("sequences are mapped before callables are resolved", ("operator_dict", "        while isinstance(mv1, Callable) and not isinstance(mv1, MultiVector):\n            mv1 = mv1()\n        while isinstance(mv2, Callable) and not isinstance(mv2, MultiVector):\n            mv2 = mv2()\n        # If mv2 is a list, apply mv1 to all elements in the list\n        if isinstance(mv2, (tuple, list)):\n            return type(mv2)(self._call_binary(mv1, mv) for mv in mv2)\n        # If mv1 is a list, apply mv2 to all elements in the list\n        if isinstance(mv1, (tuple, list)):\n            return type(mv1)(self._call_binary(mv, mv2) for mv in mv1)\n",
         "        # If mv2 is a list, apply mv1 to all elements in the list\n        if isinstance(mv2, (tuple, list)):\n            return type(mv2)(self._call_binary(mv1, mv) for mv in mv2)\n        # If mv1 is a list, apply mv2 to all elements in the list\n        if isinstance(mv1, (tuple, list)):\n            return type(mv1)(self._call_binary(mv, mv2) for mv in mv1)\n        while isinstance(mv1, Callable) and not isinstance(mv1, MultiVector):\n            mv1 = mv1()\n        while isinstance(mv2, Callable) and not isinstance(mv2, MultiVector):\n            mv2 = mv2()\n")),
     ("callables are unwrapped only once", ("operator_dict", "        while isinstance(mv1, Callable) and not isinstance(mv1, MultiVector):\n            mv1 = mv1()", "        if isinstance(mv1, Callable) and not isinstance(mv1, MultiVector):\n            mv1 = mv1()")),
@@ -542,6 +543,51 @@ def operand_kinds(ctx):
         "mv, callable returning a tuple": (lambda mv, th: (mv(1), th((mv(2), mv(3)))), ["tuple", "mv", "mv"], pair(1, 2) + pair(1, 3)),
         "list of callables, mv": (lambda mv, th: ([th(mv(1)), mv(2)], mv(3)), ["list", "mv", "mv"], pair(1, 3) + pair(2, 3)),
     }
+    # registered functions: the same treatment of callables and plain numbers for every argument
+    qr = "operator_dict.Registry.__call__"
+    fnr = ctx.func(qr)
+
+    def reg_scenario(make_operands):
+        log = []
+        func = Obj("function", {"__name__": "FN", "fmt": "<FN>"}, call=lambda *a: (log.append(("call", tuple(tname(x) for x in a))), tok("VALUES_OUT"))[1])
+        alg = Obj("algebra", {"wrapper": None, "simp_func": None, "numspace": {}, "codegen_symbolcls": None, "fmt": "ALG"})
+        alg.methods["compare"] = lambda op, other: (other is alg) if op == "Eq" else (other is not alg) if op == "NotEq" else Unk("cmp")
+
+        def getitem(key):
+            log.append(("lookup", tname(key)))
+            return (tok("KEYS_OUT"), func)
+        me = Obj("Registry", {"algebra": alg}, {}, getitem=getitem)
+
+        def mv(i):
+            return Obj("MultiVector", {"algebra": alg, "_keys": tok(f"K{i}"), "_values": tok(f"V{i}"), "issymbolic": False})
+
+        def thunk(value):
+            return Obj("function", {"fmt": "<thunk>"}, call=lambda: value)
+        ops = make_operands(mv, thunk)
+        it = make_interp(repo)
+        it.instance_classes.update({"Registry": "operator_dict.Registry", "OperatorDict": "operator_dict.OperatorDict"})
+        out = it.run(qr, [me] + list(ops))
+        return out, log
+    triple = [("lookup", ("K1", "K2", "K3")), ("call", ("V1", "V2", "V3"))]
+    reg_cells = {
+        "mv, mv, mv": (lambda mv, th: (mv(1), mv(2), mv(3)), triple),
+        "callable, mv, nested callable": (lambda mv, th: (th(mv(1)), mv(2), th(th(mv(3)))), triple),
+        "thrice nested callable first": (lambda mv, th: (th(th(th(mv(1)))), mv(2), mv(3)), triple),
+    }
+    for label, (mk, want_log) in reg_cells.items():
+        c = f"{qr}#kinds:{label}"
+        try:
+            out, log = reg_scenario(mk)
+        except NoValue as exc:
+            raise Unknown(c, str(exc), fnr)
+        if out[0] == "raise":
+            ctx.violation(c, f"arguments ({label}) raise {out[1]}: a zero-argument callable (however deeply nested) must be "
+                             f"replaced by its value", fnr)
+        elif shape(out[1]) != "mv" or log != want_log:
+            ctx.violation(c, f"arguments ({label}) give {shape(out[1])} via {log}; expected one lookup and one call in argument "
+                             f"order {want_log}", fnr)
+        else:
+            ctx.ok(c, fnr)
     for label, (mk, want_shape, want_log) in cells.items():
         c = f"{q}#kinds:{label}"
         try:
